@@ -508,3 +508,42 @@ func init() {
 		Outside: "the distributional half of the property (decided by gonum's contract, not by the solver); shapes above rank 3 / size 3",
 	})
 }
+
+func init() {
+	combos := func(acts []string, lossesL []string, p map[string]int64) []Item {
+		var out []Item
+		for _, a := range acts {
+			for _, l := range lossesL {
+				if a == "Softmax" && l != "CE" {
+					continue
+				}
+				out = append(out, Item{P: p, S: map[string]string{"act": a, "loss": l}})
+			}
+		}
+		return out
+	}
+	pwl := []string{"none", "Relu", "LeakyRelu"}
+	trans := []string{"Sigmoid", "Tanh", "Softmax"}
+	allLosses := []string{"MSE", "BCE", "CE"}
+	allChecks = append(allChecks, &Check{
+		ID: "C11", Level: "model_checking",
+		Harnesses: []Harness{
+			{Name: "C11_train", Pkg: "zzh", Func: "H_C11_train", Reach: []string{"done"},
+				What: "FC -> activation -> loss: inductive training step from arbitrary weights (forward, loss, BackPropagate, Update, ResetGradContext), new weights vs w - lr*dL/dw from closed-form references; post-state invariant; values abstracted and step repeated on the real post-update objects",
+				Items: tiered(func() []Item {
+					return mergeItems(combos(pwl, allLosses, map[string]int64{"maxb": 2, "maxf": 2, "maxo": 2, "steps": 2}),
+						combos(trans, allLosses, map[string]int64{"maxb": 1, "maxf": 2, "maxo": 2, "steps": 2}))
+				}, func() []Item {
+					return mergeItems(combos(pwl, allLosses, map[string]int64{"maxb": 3, "maxf": 3, "maxo": 3, "steps": 3}),
+						combos(trans, allLosses, map[string]int64{"maxb": 1, "maxf": 3, "maxo": 3, "steps": 3}),
+						combos([]string{"Sigmoid"}, []string{"MSE"}, map[string]int64{"maxb": 2, "maxf": 2, "maxo": 1, "steps": 2}))
+				})},
+			{Name: "C11_noreset", Pkg: "zzh", Func: "H_C11_noreset", Reach: []string{"done"},
+				What:  "second step without ResetGradContext: Update returns an error and replaces nothing",
+				Items: func(string) []Item { return combos([]string{"none", "Sigmoid", "Softmax"}, allLosses, map[string]int64{"maxb": 2, "maxf": 2, "maxo": 2}) }},
+		},
+		Assumptions: []string{numericModel, "targets in [0,1]; Relu/LeakyRelu pre-activations apart from 0 and BCE/CE predictions apart from the clip bounds by more than 1e-200 (differentiable points)",
+			"step counts beyond the explored ones follow from the inductive form: each step starts from arbitrary weight values held by the real post-update tensor objects"},
+		Outside: "widths / batch sizes above 3; models other than FC -> activation -> loss",
+	})
+}
